@@ -43,6 +43,24 @@ def extra(rng, tier):
                     data2 = body2 + (b"\r\n" if with_crlf else b"")
                     c2 = cfg(); c2["has_upload"] = True
                     cases.append((c2, [("read", [data2])] + finish(c2)))
+    # structural corruptions of LONG lines (refusal messages that quote the offending URL grow with it): fragment, user-info,
+    # missing host, missing or foreign scheme, bad port, bad Titan size - padded to lengths just below and at the limit
+    for total in (900, 980, 1000, 1010, 1020, 1023, 1024):
+        for mk in (lambda pad: b"gemini://h.example/" + pad + b"#frag", lambda pad: b"gemini://user@h.example/" + pad,
+                   lambda pad: b"gemini://u:pw@h.example/" + pad, lambda pad: b"gemini:///" + pad, lambda pad: b"//h.example/" + pad,
+                   lambda pad: b"h.example/" + pad, lambda pad: b"https://h.example/" + pad, lambda pad: b"gemini://h.example:99999/" + pad,
+                   lambda pad: b"gemini://h.example:x/" + pad, lambda pad: b"gemini://[::1/" + pad,
+                   lambda pad: b"titan://h.example/" + pad + b";size=-1", lambda pad: b"titan://h.example/" + pad + b";size=1x;mime=a/b",
+                   lambda pad: b"titan://u@h.example/" + pad + b";size=0", lambda pad: b"titan:///" + pad + b";size=0",
+                   lambda pad: b"titan://h.example/" + pad + b"#f;size=0"):
+            base = mk(b"")
+            room = total - 2 - len(base)
+            if room < 0: continue
+            for padch in (b"a", "\u00e9".encode("utf-8")):
+                line = mk(padch * (room // len(padch)) + b"a" * (room % len(padch))) + b"\r\n"
+                for has_upload in (True, False):
+                    c = cfg(); c["has_upload"] = has_upload
+                    cases.append((c, [("read", [line])] + finish(c)))
     # one outer read delivered as two consecutive data_received calls (two TLS records in one TCP segment on the PyOpenSSL
     # backend): an over-long line without CRLF, then bytes that would be a valid request on their own - the refusal of the
     # first part is final, the rest belongs to the same over-long line
@@ -56,6 +74,6 @@ def run(tier, seed):
     res, _, _ = run_server_property(
         "C08", ["C08.ok"], tier, seed, extra_cases=extra, n_random=(1500 if tier == "quick" else 20000),
         nontrivial=lambda c, e, o: any(a[0] in ("h", "mw", "up") for acts, _ in o for a in acts),
-        rule="request lines from the URI grammar (must-accept), its corruptions (must-reject), raw strings, lengths 1019..1030 with/without CRLF; "
+        rule="request lines from the URI grammar (must-accept), its corruptions (must-reject), raw strings, lengths 1019..1030 with/without CRLF, structural corruptions of lines of 900..1024 bytes; "
              "non-trivial = distinct schedule whose request reached the chain or a handler")
     return res
